@@ -1,5 +1,6 @@
 /-
-Line-protocol driver for area FinFld (C20, C21, C22): prime fields.
+Line-protocol driver for area FinFld (C20, C21, C22).
+Prime fields (values are Nat):
   bin <op> p a <e|i> o      op ∈ add radd iadd sub rsub isub mul rmul imul truediv rtruediv itruediv
   un <op> p a               op ∈ neg pos reciprocal bool signed unsigned int abs
   sh <op> p a n             op ∈ pow lshift ilshift rshift irshift
@@ -8,9 +9,16 @@ Line-protocol driver for area FinFld (C20, C21, C22): prime fields.
   bytelen order             tobytes order x1,x2,..      frombytes order hex
   pickle <tuple|int|raw> p n w a   class made by GF((p,n,w)) / GF(p) / pGF(p,n,w); element value a
                             -> "p n w value same|differs" (__reduce__ data, value and class identity after rebuild)
+Extension fields of odd characteristic (polynomials = coefficient lists "c0,c1,..", "-" = zero; field = p m):
+  xbin <op> p m a <e|i|p> o    xun <op> p m a (neg pos reciprocal bool int)    xsh <op> p m a n
+  xeq p m a <e|i|p> o          xsqrt p m a <0|1>     xissqr p m a     xof p m x     xorder p m
+  xtobytes p m a1|a2|..        xfrombytes p m hex  -> a1|a2|..
+Binary fields (polynomials = Nat bitmasks; field = m):
+  bbin bun bsh beq bsqrt bissqr bof border btobytes (m v1,v2,..) bfrombytes (m hex -> v1,v2,..)
 -/
 import MpycV.Model.Util
 import MpycV.Model.PrimeF
+import MpycV.Model.ExtF
 
 open MpycV MpycV.Util
 
@@ -133,6 +141,223 @@ def step (line : String) : String :=
     | _, _, _, _ => bad
   | _ => bad
 
+/-! extension fields -/
+
+def showP (a : List Nat) : String := showNatList a
+def showEP : Except Err (List Nat) → String
+  | .ok v => showP v
+  | .error e => toString e
+
+def xopd? (kind o : String) : Option ExtF.Opd :=
+  if kind == "e" then (parseNatList? o).map .elem
+  else if kind == "p" then (parseNatList? o).map .poly
+  else if kind == "i" then (parseInt? o).map .int
+  else none
+
+def xbinOp (op : String) (p : Nat) (m a o : List Nat) : Option String :=
+  match op with
+  | "add" => some (showP (ExtF.add p m a o))
+  | "radd" => some (showP (ExtF.radd p m a o))
+  | "iadd" => some (showP (ExtF.iadd p m a o))
+  | "sub" => some (showP (ExtF.sub p m a o))
+  | "rsub" => some (showP (ExtF.rsub p m a o))
+  | "isub" => some (showP (ExtF.isub p m a o))
+  | "mul" => some (showP (ExtF.mul p m a o))
+  | "rmul" => some (showP (ExtF.rmul p m a o))
+  | "imul" => some (showP (ExtF.imul p m a o))
+  | "truediv" => some (showEP (ExtF.truediv p m a o))
+  | "rtruediv" => some (showEP (ExtF.rtruediv p m a o))
+  | "itruediv" => some (showEP (ExtF.itruediv p m a o))
+  | _ => none
+
+def xunOp (op : String) (p : Nat) (m a : List Nat) : Option String :=
+  match op with
+  | "neg" => some (showP (ExtF.neg p m a))
+  | "pos" => some (showP (ExtF.pos p m a))
+  | "reciprocal" => some (showEP (ExtF.reciprocal p m a))
+  | "bool" => some (showB (ExtF.toBool a))
+  | "int" => some (toString (ExtF.toInt p a))
+  | _ => none
+
+def xshOp (op : String) (p : Nat) (m a : List Nat) (n : Int) : Option String :=
+  match op with
+  | "pow" => some (showEP (ExtF.pow p m a n))
+  | "lshift" => some (showP (ExtF.lshift p m a n))
+  | "ilshift" => some (showP (ExtF.ilshift p m a n))
+  | "rshift" => some (showEP (ExtF.rshift p m a n))
+  | "irshift" => some (showEP (ExtF.irshift p m a n))
+  | _ => none
+
+def parsePolys? (s : String) : Option (List (List Nat)) :=
+  if s == "." then some [] else (s.splitOn "|").mapM parseNatList?
+
+def showPolys (l : List (List Nat)) : String :=
+  if l.isEmpty then "." else "|".intercalate (l.map showP)
+
+def stepX (toks : List String) : String :=
+  let bad := "bad-op"
+  match toks with
+  | ["xbin", op, p, m, a, kind, o] =>
+    match parseNat? p, parseNatList? m, parseNatList? a with
+    | some p, some m, some a =>
+      match xopd? kind o with
+      | some od => (xbinOp op p m a (od.coerce p)).getD bad
+      | none => bad
+    | _, _, _ => bad
+  | ["xun", op, p, m, a] =>
+    match parseNat? p, parseNatList? m, parseNatList? a with
+    | some p, some m, some a => (xunOp op p m a).getD bad
+    | _, _, _ => bad
+  | ["xsh", op, p, m, a, n] =>
+    match parseNat? p, parseNatList? m, parseNatList? a, parseInt? n with
+    | some p, some m, some a, some n => (xshOp op p m a n).getD bad
+    | _, _, _, _ => bad
+  | ["xeq", p, m, a, kind, o] =>
+    match parseNat? p, parseNatList? m, parseNatList? a with
+    | some p, some m, some a =>
+      match xopd? kind o with
+      | some od => showB (ExtF.eq p m a od)
+      | none => bad
+    | _, _, _ => bad
+  | ["xsqrt", p, m, a, inv] =>
+    match parseNat? p, parseNatList? m, parseNatList? a with
+    | some p, some m, some a =>
+      if inv == "0" then showEP (ExtF.sqrt p m a false)
+      else if inv == "1" then showEP (ExtF.sqrt p m a true) else bad
+    | _, _, _ => bad
+  | ["xissqr", p, m, a] =>
+    match parseNat? p, parseNatList? m, parseNatList? a with
+    | some p, some m, some a => match ExtF.isSqr p m a with
+      | .ok b => showB b
+      | .error e => toString e
+    | _, _, _ => bad
+  | ["xof", p, m, x] =>
+    match parseNat? p, parseNatList? m, parseInt? x with
+    | some p, some m, some x => showP (ExtF.ofInt p m x)
+    | _, _, _ => bad
+  | ["xorder", p, m] =>
+    match parseNat? p, parseNatList? m with
+    | some p, some m => s!"{ExtF.order p m} {ExtF.byteLength p m}"
+    | _, _ => bad
+  | ["xtobytes", p, m, xs] =>
+    match parseNat? p, parseNatList? m, parsePolys? xs with
+    | some p, some m, some xs => match ExtF.toBytes p m xs with
+      | .ok bs => showHex bs
+      | .error e => toString e
+    | _, _, _ => bad
+  | ["xfrombytes", p, m, hex] =>
+    match parseNat? p, parseNatList? m, parseHex? hex with
+    | some p, some m, some bs => match ExtF.fromBytes p m bs with
+      | .ok vs => showPolys vs
+      | .error e => toString e
+    | _, _, _ => bad
+  | _ => bad
+
+/-! binary fields -/
+
+def showEN : Except Err Nat → String
+  | .ok v => toString v
+  | .error e => toString e
+
+def bopd? (kind o : String) : Option BinF.Opd :=
+  if kind == "e" then (parseNat? o).map .elem
+  else if kind == "p" then (parseNat? o).map .poly
+  else if kind == "i" then (parseInt? o).map .int
+  else none
+
+def bbinOp (op : String) (m a o : Nat) : Option String :=
+  match op with
+  | "add" => some (toString (BinF.add m a o))
+  | "radd" => some (toString (BinF.radd m a o))
+  | "iadd" => some (toString (BinF.iadd m a o))
+  | "sub" => some (toString (BinF.sub m a o))
+  | "rsub" => some (toString (BinF.rsub m a o))
+  | "isub" => some (toString (BinF.isub m a o))
+  | "mul" => some (toString (BinF.mul m a o))
+  | "rmul" => some (toString (BinF.rmul m a o))
+  | "imul" => some (toString (BinF.imul m a o))
+  | "truediv" => some (showEN (BinF.truediv m a o))
+  | "rtruediv" => some (showEN (BinF.rtruediv m a o))
+  | "itruediv" => some (showEN (BinF.itruediv m a o))
+  | _ => none
+
+def bunOp (op : String) (m a : Nat) : Option String :=
+  match op with
+  | "neg" => some (toString (BinF.neg m a))
+  | "pos" => some (toString (BinF.pos m a))
+  | "reciprocal" => some (showEN (BinF.reciprocal m a))
+  | "bool" => some (showB (BinF.toBool a))
+  | "int" => some (toString (BinF.toInt a))
+  | _ => none
+
+def bshOp (op : String) (m a : Nat) (n : Int) : Option String :=
+  match op with
+  | "pow" => some (showEN (BinF.pow m a n))
+  | "lshift" => some (showEN (BinF.lshift m a n))
+  | "ilshift" => some (showEN (BinF.ilshift m a n))
+  | "rshift" => some (showEN (BinF.rshift m a n))
+  | "irshift" => some (showEN (BinF.irshift m a n))
+  | _ => none
+
+def stepB (toks : List String) : String :=
+  let bad := "bad-op"
+  match toks with
+  | ["bbin", op, m, a, kind, o] =>
+    match parseNat? m, parseNat? a, bopd? kind o with
+    | some m, some a, some od => (bbinOp op m a od.coerce).getD bad
+    | _, _, _ => bad
+  | ["bun", op, m, a] =>
+    match parseNat? m, parseNat? a with
+    | some m, some a => (bunOp op m a).getD bad
+    | _, _ => bad
+  | ["bsh", op, m, a, n] =>
+    match parseNat? m, parseNat? a, parseInt? n with
+    | some m, some a, some n => (bshOp op m a n).getD bad
+    | _, _, _ => bad
+  | ["beq", m, a, kind, o] =>
+    match parseNat? m, parseNat? a, bopd? kind o with
+    | some m, some a, some od => showB (BinF.eq m a od)
+    | _, _, _ => bad
+  | ["bsqrt", m, a, inv] =>
+    match parseNat? m, parseNat? a with
+    | some m, some a =>
+      if inv == "0" then showEN (BinF.sqrt m a false)
+      else if inv == "1" then showEN (BinF.sqrt m a true) else bad
+    | _, _ => bad
+  | ["bissqr", m, a] =>
+    match parseNat? m, parseNat? a with
+    | some _, some a => showB (BinF.isSqr a)
+    | _, _ => bad
+  | ["bof", m, x] =>
+    match parseNat? m, parseInt? x with
+    | some m, some x => toString (BinF.ofInt m x)
+    | _, _ => bad
+  | ["border", m] =>
+    match parseNat? m with
+    | some m => s!"{BinF.order m} {BinF.byteLength m}"
+    | none => bad
+  | ["btobytes", m, xs] =>
+    match parseNat? m, parseNatList? xs with
+    | some m, some xs => match BinF.toBytes m xs with
+      | .ok bs => showHex bs
+      | .error e => toString e
+    | _, _ => bad
+  | ["bfrombytes", m, hex] =>
+    match parseNat? m, parseHex? hex with
+    | some m, some bs => match BinF.fromBytes m bs with
+      | .ok vs => showNatList vs
+      | .error e => toString e
+    | _, _ => bad
+  | _ => bad
+
+def stepAll (line : String) : String :=
+  match tokens line with
+  | [] => "bad-op"
+  | t :: rest =>
+    if t.startsWith "x" then stepX (t :: rest)
+    else if t.startsWith "b" && t != "bin" && t != "bytelen" then stepB (t :: rest)
+    else step line
+
 end Drv.FinFld
 
-def main : IO Unit := do MpycV.Util.loop (← IO.getStdin) Drv.FinFld.step
+def main : IO Unit := do MpycV.Util.loop (← IO.getStdin) Drv.FinFld.stepAll
